@@ -83,11 +83,12 @@ unsafe impl GlobalAlloc for CountingAlloc {
     }
 
     unsafe fn dealloc(&self, p: *mut u8, layout: Layout) {
-        if ENABLED.load(Ordering::Relaxed) {
-            if let Some(sz) = remove(p as usize) {
-                LIVE_BYTES.fetch_sub(sz as i64, Ordering::Relaxed);
-                LIVE_BLOCKS.fetch_sub(1, Ordering::Relaxed);
-            }
+        // also while accounting is switched off: a counted block that is freed then must leave
+        // the table, or a later block at the same address would be mistaken for it (in a process
+        // that never counts, the probe ends at the first, empty, slot)
+        if let Some(sz) = remove(p as usize) {
+            LIVE_BYTES.fetch_sub(sz as i64, Ordering::Relaxed);
+            LIVE_BLOCKS.fetch_sub(1, Ordering::Relaxed);
         }
         System.dealloc(p, layout)
     }
